@@ -190,11 +190,14 @@ class Filenames(object):
                 result = string.Template(item).substitute(currentns)
                 if 'num' in currentns:
                     num += 1
-                self.variables.clear()
-                self.variables.update(g)
                 result = self.addExtension(result)
                 if result not in self.invalid:
                     self.invalid[result] = None
+                    # The namespace is reset only once a name has been
+                    # issued; a candidate that is skipped because it is
+                    # already taken must not lose the caller's variables
+                    self.variables.clear()
+                    self.variables.update(g)
                     yield result
             except KeyError:
                 continue
@@ -232,11 +235,11 @@ class Filenames(object):
                     result = string.Template(item).substitute(currentns)
                     if 'num' in currentns:
                         num += 1
-                    self.variables.clear()
-                    self.variables.update(g)
                     result = self.addExtension(result)
                     if result not in self.invalid:
                         self.invalid[result] = None
+                        self.variables.clear()
+                        self.variables.update(g)
                         yield result
                     else:
                         continue
